@@ -241,18 +241,28 @@ def check(case):
     if s['oos'] is None and len(params) >= 2:
         with case.clause('refix_scan'):
             names_all = list(L.get_parameter_names())
-            k = (len(params) * 7) // 11
-            rest = np.delete(params, k)
-            L.fix_parameters({names_all[k]: float(params[k]) * 1.7 + 0.3})
-            L.fix_parameters({names_all[k]: float(params[k])})
-            case.equal(list(L.get_parameter_names()), [n for j, n in enumerate(names_all) if j != k],
-                       'names after fixing %r twice' % names_all[k])
-            case.close(L(rest.copy()), want, rtol=1e-9, what='log-likelihood after re-fixing %r at its value' % names_all[k])
-            case.close(np.sum(L.compute_pointwise_ll(rest.copy())), want, rtol=1e-9,
-                       what='sum(pointwise) after re-fixing %r at its value' % names_all[k])
-            L.fix_parameters({names_all[k]: None})
-            case.equal(list(L.get_parameter_names()), names_all, 'names after releasing %r' % names_all[k])
-            case.close(L(params.copy()), want, rtol=1e-9, what='log-likelihood after releasing %r again' % names_all[k])
+            # one mechanistic parameter and one error model parameter (the last one), one after the other
+            for k in sorted({(len(params) * 7) // 11, len(params) - 1}):
+                rest = np.delete(params, k)
+                # (the argument only has to be convertible to a dictionary: a list of pairs, a one-shot zip)
+                L.fix_parameters([(names_all[k], float(params[k]) * 1.7 + 0.3)])
+                L.fix_parameters(zip([names_all[k]], [float(params[k])]))
+                case.equal(list(L.get_parameter_names()), [n for j, n in enumerate(names_all) if j != k],
+                           'names after fixing %r twice' % names_all[k])
+                # reading the likelihood's description in between is not a configuration call
+                sub = L.get_submodels()
+                case.equal(sorted(sub.keys()), ['Error models', 'Mechanistic model'], 'keys of get_submodels()')
+                case.equal(len(sub['Error models']), ll['n_out'], 'number of error models in get_submodels()')
+                L.get_id(), L.n_parameters(), list(L.n_observations())
+                case.close(L(rest.copy()), want, rtol=1e-9,
+                           what='log-likelihood after re-fixing %r at its value and reading get_submodels()' % names_all[k])
+                case.close(np.sum(L.compute_pointwise_ll(rest.copy())), want, rtol=1e-9,
+                           what='sum(pointwise) after re-fixing %r at its value' % names_all[k])
+                case.equal(list(L.get_parameter_names()), [n for j, n in enumerate(names_all) if j != k],
+                           'names after reading get_submodels() with %r fixed' % names_all[k])
+                L.fix_parameters({names_all[k]: None})
+                case.equal(list(L.get_parameter_names()), names_all, 'names after releasing %r' % names_all[k])
+                case.close(L(params.copy()), want, rtol=1e-9, what='log-likelihood after releasing %r again' % names_all[k])
 
     # The user goes on using their own model object (e.g. for a second likelihood over the outputs in another order):
     # the likelihood constructed before keeps scoring its observations against its own outputs.
